@@ -17,7 +17,9 @@ script line:   <head> | <task> ; <task> ; ...
   task i is sent by client goroutine g at virtual instant `time` (or as soon as g's previous Send returned).
   park s:o:u = the o-th call of ants.VerifHook(site s), s ∈ 1..4, blocks until instant u.
 monitor input:  <script line> TAB <observation of the real code>
-output:         ok | ok overflow | ok unchecked <why> | reject model-allows: <outcome> || <outcome> ...
+output:         ok | ok overflow | ok por-miss | ok unchecked <why> | reject model-allows: <outcome> || <outcome> ...
+                (a reject is issued only after a COMPLETE exploration, repeated without the partial-order / slot
+                reductions; every cut-off by the state cap gives `ok overflow`)
                 (after 40 rejected lines the rest is answered `ok unchecked`; `stress …` lines are oracle-only)
 The monitor explores EVERY interleaving of the model (Got.Model.Ants.step) under maximal progress
 for the scripted environment and accepts iff the observation is one of the possible final outcomes.
@@ -392,8 +394,9 @@ def succsAll (sc : Scen) (d : DState) : List DState :=
       let internal := (taskActs sc.cfg s k).flatMap fun a =>
         match a with
         | .wTake k a w =>
-          -- inner workers are interchangeable: only the lowest free slot is tried
-          if (List.range w).all (fun w' => (s.slot w').isSome) then tryStep sc d (.wTake k a w) else []
+          -- inner workers are interchangeable: only the lowest free slot is tried (every slot in the unreduced mode; the
+          -- state key forgets slot ids, so permuted states merge anyway)
+          if sc.nopor || (List.range w).all (fun w' => (s.slot w').isSome) then tryStep sc d (.wTake k a w) else []
         | .wStart k a _ => tryStep sc d (.wStart k a (behOf sc k t.inv).hon)
         | .hook1 k a => hookGate sc d 1 k a (.hook1 k a)
         | .hook4 k a => hookGate sc d 4 k a (.hook4 k a)
@@ -488,10 +491,18 @@ def monitorLine (rejects : Nat) (line : String) : Nat × String :=
       let (fin, ovf) := explore sc exploreLimit (some (parseObs impl))
       if fin.contains impl then (rejects, "ok")
       else if ovf then (rejects, "ok overflow")
-      else if rejects < 3 then
-        let (all, _) := explore sc 20000
-        (rejects + 1, "reject model-allows: " ++ " || ".intercalate (all.take 3))
-      else (rejects + 1, "reject (model outcomes shown for the first rejected lines only)")
+      else
+        -- A reject must rest on a COMPLETE exploration that does not depend on the reductions: repeat the search without
+        -- the partial-order reduction and without the lowest-free-slot restriction (still pruned by the observation,
+        -- which only discards states that already contradict it). Any cut-off is `ok overflow`, never a reject.
+        let (fin2, ovf2) := explore { sc with nopor := true } exploreLimit (some (parseObs impl))
+        if fin2.contains impl then (rejects, "ok por-miss")
+        else if ovf2 then (rejects, "ok overflow")
+        else if rejects < 3 then
+          -- display only (may be truncated); the verdict above does not depend on it
+          let (all, cut) := explore sc 20000
+          (rejects + 1, "reject model-allows" ++ (if cut then " (partial list)" else "") ++ ": " ++ " || ".intercalate (all.take 3))
+        else (rejects + 1, "reject (model outcomes shown for the first rejected lines only)")
   | _ => (rejects + 1, "reject bad-line")
 
 def outcomesLine (nopor : Bool) (line : String) : String :=
